@@ -210,6 +210,33 @@ fn supervisor(exe: &str, args: Args) {
     );
 }
 
+struct SendPtr<T>(*mut T);
+unsafe impl<T> Send for SendPtr<T> {}
+impl<T> SendPtr<T> {
+    // a method (not a field access), so that the closure captures the whole wrapper
+    fn get(&self) -> *mut T {
+        self.0
+    }
+}
+
+fn on_small_stack(bytes: usize, ctx: &mut ops::Ctx, call: &Value) -> Value {
+    let p = SendPtr(ctx as *mut ops::Ctx);
+    let c = SendPtr(call as *const Value as *mut Value);
+    std::thread::scope(|s| {
+        std::thread::Builder::new()
+            .stack_size(bytes)
+            .spawn_scoped(s, move || {
+                let ctx = unsafe { &mut *p.get() };
+                let call = unsafe { &*(c.get() as *const Value) };
+                SendPtr(Box::into_raw(Box::new(ops::perform(ctx, call))))
+            })
+            .expect("spawn")
+            .join()
+            .map(|b| *unsafe { Box::from_raw(b.get()) })
+            .unwrap_or_else(|_| json!({"k": "panic"}))
+    })
+}
+
 struct Sink;
 static SINK: Sink = Sink;
 impl log::Log for Sink {
@@ -255,7 +282,12 @@ fn worker(args: Args) {
         if let Some(calls) = case["calls"].as_array() {
             for (j, call) in calls.iter().enumerate() {
                 unsafe { libc::alarm(args.timeout) };
-                let o = ops::perform(&mut ctx, call);
+                // "stack": N - the call runs on a thread with a stack of N bytes (depth of recursion is part of
+                // "always terminates, never crashes": a stack overflow aborts the process and is recorded as a crash)
+                let o = match case["stack"].as_u64() {
+                    None => ops::perform(&mut ctx, call),
+                    Some(n) => on_small_stack(n as usize, &mut ctx, call),
+                };
                 unsafe { libc::alarm(0) };
                 let mut line =
                     serde_json::to_vec(&json!({"ev": "Call", "run": run, "j": j, "call": call, "out": o}))
